@@ -3,20 +3,21 @@
 R1  TLC checks Outcomes.tla: the outcome automaton of the public API (guards, the
     memoisation fallback, the message-rewriting re-raise, the generated wrapper, the door
     functions) over the exception/warning forest *extracted from the working tree's
-    beartype.roar at run time* (generated module OutcomesForest.tla), exhaustively over
-    the grammar defect x position x entry point x user raise point.  The declarative
+    beartype.roar at run time* (ndjson file read by the specification through IOEnv) over
+    the grammar defect x position x entry point x user raise point (quick: one case per
+    attribute class the automaton distinguishes; thorough: every case).  The declarative
     taxonomy rule of the statement (``Judge``) is the invariant.  The 0.23.0 layer
-    (``Legacy``: unguarded hash probe) and three wrong designs are run as spec mutants and
-    must be rejected.  The same run emits the case table.
+    (``Legacy = {unguarded_hash}``, F6) and five wrong designs are run as spec mutants and
+    must be rejected.  The same run emits the case table (all 13k cases, both tiers).
 R2  every emitted case is concretised (leaf values from a seeded generator; the hint is
     built OUTSIDE the observed region and the case is skipped and counted if ``typing``
     itself refuses to build it), run on the real API in a forked interpreter, and the
     events (Begin, Enter, UserRaise, Warn, Return with the class, its MRO, identity of the
     user exception, its traceback anchor) are logged as ndjson.
-R3  trace/OutcomesTrace.tla replays every logged history through the automaton (with every
-    fault source permitted, so that the log can always be followed) and *judges* every
-    Return with ``Judge`` evaluated in TLA+ over the extracted forest; verdict rows come
-    back from TLC.  Nothing is classified in Python.
+R3  trace/OutcomesTrace.tla *judges* every logged Return with ``Judge`` evaluated in TLA+
+    over the extracted forest (verdict rows come back from TLC; nothing is classified in
+    Python) and tries to *follow* every logged history with the intended automaton; a case
+    that is within the taxonomy but cannot be followed is reported as specification drift.
 """
 from __future__ import annotations
 
@@ -49,17 +50,6 @@ def extract_forest():
                              "public": (not n.startswith("_")) and getattr(R, n, None) is c,
                              "warning": issubclass(c, Warning)}
     return forest
-
-
-def forest_module(forest):
-    names = sorted(forest)
-    par = ",\n  ".join('<<"%s", {%s}>>' % (n, ", ".join('"%s"' % p for p in forest[n]["parents"])) for n in names)
-    pub = ", ".join('"%s"' % n for n in names if forest[n]["public"])
-    return ("---- MODULE OutcomesForest ----\n"
-            "\\* generated by drivers/c11.py from the working tree's beartype.roar\n"
-            "ForestParentPairs == {\n  %s }\n"
-            "ForestPublic == { %s }\n"
-            "====\n") % (par, pub)
 
 
 # ------------------------------------------------------------------ concretiser (child side)
@@ -107,10 +97,6 @@ class _Ctx:
         self.raised += 1
         self.events.append({"ev": "UserRaise", "uid": 1, "on_pith": bool(self.on_pith(*objs)), "n": self.reach})
         raise self.exc
-
-
-def _boom_frame_name():
-    return "boom"
 
 
 def _leaf(rnd, kind):
@@ -333,7 +319,7 @@ def build_defect(ctx, kind, var):
             if var == "newline":
                 return "int\n"
             if var == "fwdref_obj_bad":
-                return T.ForwardRef("1 +") if False else T.ForwardRef(_leaf(rnd, "name"))
+                return T.ForwardRef(_leaf(rnd, "name"))
             if var == "fwdref_obj_syntax":
                 return T.ForwardRef("list[int")
         if kind == "annotated":
@@ -405,7 +391,7 @@ def build_defect(ctx, kind, var):
             if var == "callable_ellipsis_ret":
                 return CA.Callable[..., ...]
             if var == "none_none":
-                return list[None][None] if False else T.Optional[type(None)]
+                return T.Optional[type(None)]
             if var == "nonetype_subscript":
                 import types
                 return types.GenericAlias(type(None), (int,))
@@ -575,9 +561,6 @@ def build_raiser(ctx, rp):
             return CA.Collection[int], v
         return CA.Sequence[int], v
     raise KeyError(rp)
-
-
-_FILLER = {"int": 5, "str": "s"}
 
 
 def apply_position(ctx, pos, D, dval):
@@ -1126,7 +1109,7 @@ def run(rep, tier, seed):
             _mutants_check(rep, [f.result() for f in futs])
         if tier == "thorough":
             # other leaf values
-            for s2 in (seed + 1, seed + 2):
+            for s2 in (seed + 1,):
                 sub = [dict(c) for c in _select(cases, "quick", s2)]
                 _replay_and_judge(rep, d, fpath, sub, s2, pool, label=f"seed{s2}")
         for c, evs in results[:: max(1, len(results) // 6)]:
